@@ -405,6 +405,208 @@ def make_replaced_history(batches, betas, beta_final, D):
                       stubs=["np.log/np.logaddexp -> exact log-domain algebra"], theory="QF_NRA")
 
 
+# ------------------------------------------------------------------ arbitrary real temperatures (no beta grid)
+
+
+class BetaProducts:
+    """exp(beta * ell_s) as an *uninterpreted* positive function of (sample s, beta), Ackermannised: one positive real
+    E[s, beta-term] per syntactically distinct pair, with the congruence instances  beta == beta' -> E[s,beta] == E[s,beta']
+    and  beta == 0 -> E == 1  added as the pairs appear. On top of these atoms the log-domain algebra stays exact."""
+
+    def __init__(self, ctx):
+        self.ctx = ctx
+        self.atoms = {}  # name -> list of (beta z3 term, LogVal atom, z3 var)
+        self.n_axioms = 0
+
+    def product(self, name, beta):
+        if isinstance(beta, np.ndarray) and beta.ndim == 0:
+            beta = beta.item()
+        b = SymReal.lift(beta)
+        bc = b.concrete()
+        if bc is not None and bc == 0:
+            return LogVal({})
+        bt = b.term()
+        lst = self.atoms.setdefault(name, [])
+        for t0, lv, _ in lst:
+            if t0.eq(bt):
+                return lv
+        lv = LogVal.atom(f"E_{name}_{len(lst)}", 1)
+        (at, _), = lv.coef.items()
+        self.ctx.register(f"betaof_E_{name}_{len(lst)}", bt) if not z3.is_rational_value(bt) else None
+        if bc is None:
+            self.ctx.assume(z3.Implies(bt == 0, at.a == 1))
+            self.n_axioms += 1
+        for t0, _, a0 in lst:
+            self.ctx.assume(z3.Implies(bt == t0, at.a == a0))
+            self.n_axioms += 1
+        lst.append((bt, lv, at.a))
+        return lv
+
+
+class LoglLin:
+    """sum_i k_i * ell_i of named log-likelihood unknowns; multiplying by a temperature gives the log-domain value
+    sum_i k_i * (beta * ell_i), each beta*ell_i an Ackermannised atom of `BetaProducts`."""
+
+    __slots__ = ("bp", "terms")
+
+    def __init__(self, bp, terms):
+        self.bp = bp
+        self.terms = {k: v for k, v in terms.items() if v != 0}
+
+    def __add__(self, o):
+        if isinstance(o, LoglLin):
+            t = dict(self.terms)
+            for k, v in o.terms.items():
+                t[k] = t.get(k, Fraction(0)) + v
+            return LoglLin(self.bp, t)
+        if isinstance(o, np.ndarray) and o.ndim > 0:
+            return NotImplemented
+        if isinstance(o, (int, float)) and o == 0:
+            return self
+        return NotImplemented
+
+    __radd__ = __add__
+
+    def __neg__(self):
+        return LoglLin(self.bp, {k: -v for k, v in self.terms.items()})
+
+    def __sub__(self, o):
+        if isinstance(o, LoglLin):
+            return self + (-o)
+        return NotImplemented
+
+    def __mul__(self, beta):
+        if isinstance(beta, np.ndarray) and beta.ndim > 0:
+            return NotImplemented
+        if isinstance(beta, (LoglLin, LogVal)):
+            return NotImplemented
+        out = LogVal({})
+        for name, k in self.terms.items():
+            out = out + self.bp.product(name, beta) * k
+        return out
+
+    __rmul__ = __mul__
+
+
+def make_symbolic_beta(batches, shift=False, free_final=False):
+    """temperatures are arbitrary reals 0 <= beta_1 <= ... <= beta_T <= 1 (first one 0 when T > 1 as in every run),
+    beta_final either 1 or an arbitrary real in [0, 1]; log-likelihoods arbitrary; exp(beta*ell) uninterpreted."""
+    T = len(batches)
+    N = sum(batches)
+
+    def build(ctx, bp, betas, Zs, c=None):
+        st = StateManager(n_dim=1)
+        k = 0
+        for t, nt in enumerate(batches):
+            ls = [LoglLin(bp, {f"l{k + j}": Fraction(1)}) for j in range(nt)]
+            logz = LogVal.of_positive(Zs[t])
+            if c is not None:
+                ls = [l + c for l in ls]
+                logz = logz + c * betas[t]
+            st.update_current({"logl": sarr(ls), "beta": betas[t], "logz": logz})
+            st.commit_current_to_history()
+            k += nt
+        return st
+
+    def run(st, bf):
+        over = {"asarray": lambda a, *aa, **kw: sarr(list(a)) if isinstance(a, list) and a and not isinstance(a[0], (int, float)) else np.asarray(a, *aa, **kw)}
+        with patched(sm_mod, np=NpProxy(exact_log=True, overrides=over), float=lambda v: v):
+            return st.compute_logw_and_logz(bf, normalize=False)
+
+    def harness(ctx: PathCtx):
+        bp = BetaProducts(ctx)
+        betas = []
+        for t in range(T):
+            if t == 0 and T > 1:
+                betas.append(SymReal.const(0))
+                continue
+            b = real(ctx, f"beta{t}", lo=0, hi=1)
+            if betas and betas[-1].concrete() is None:
+                ctx.assume(betas[-1].term() <= b.term())
+            betas.append(b)
+        bf = real(ctx, "beta_final", lo=0, hi=1) if free_final else 1.0
+        Zs = [real(ctx, f"Z{t}", lo=0, lo_strict=True) for t in range(T)]
+        st = build(ctx, bp, betas, Zs)
+        logw, logz = run(st, bf)
+        ctx.check("length", z3.BoolVal(len(logw) == N))
+        # specification in the exp domain, from the same uninterpreted exp(beta*ell)
+        spec = []
+        for s in range(N):
+            num = bp.product(f"l{s}", bf).exp()
+            den = None
+            for t in range(T):
+                term = bp.product(f"l{s}", betas[t]).exp() * Fraction(batches[t], N) / Zs[t]
+                den = term if den is None else den + term
+            spec.append(num / den)
+        tot = spec[0]
+        for w in spec[1:]:
+            tot = tot + w
+        for s in range(N):
+            ctx.check(f"logw[{s}]==formula", eq(logw[s].exp(), spec[s]))
+        ctx.check("logz==log-mean-weight", eq(logz.exp(), tot / N))
+        if shift:
+            c = LoglLin(bp, {"cshift": Fraction(1)})
+            st2 = build(ctx, bp, betas, Zs, c=c)
+            logw2, logz2 = run(st2, bf)
+            ebc = bp.product("cshift", bf).exp()
+            for s in range(N):
+                ctx.check(f"shift:logw[{s}]-moves-by-beta_final*c", eq(logw2[s].exp(), logw[s].exp() * ebc))
+            ctx.check("shift:evidence-moves-by-beta_final*c", eq(logz2.exp(), logz.exp() * ebc))
+        ctx.observe("n_congruence_axioms", z3.IntVal(bp.n_axioms))
+        return None
+
+    LADDERS = [None, 5e-5, 1e-6, 1e-3, 0.2, 0.0]
+
+    def replay(m, label, v):
+        # exp(beta*ell) was uninterpreted, so the model fixes temperatures and evidences but not log-likelihoods:
+        # replay with the model's temperatures and with ladders of equally spaced ones, on log-likelihoods of several magnitudes
+        import math
+        mb = [0.0 if (t == 0 and T > 1) else float(m.get(f"beta{t}", 0.0)) for t in range(T)]
+        bfv = float(m.get("beta_final", 1.0)) if free_final else 1.0
+        lzs = [math.log(max(float(m.get(f"Z{t}", 1.0)), 1e-300)) for t in range(T)]
+        worst = None
+        for lad in LADDERS:
+            bs = mb if lad is None else [min(1.0, t * lad) for t in range(T)]
+            for scale in (1.0, 40.0, 3000.0):
+                rng = np.random.RandomState(5)
+                lb = [(-scale * rng.rand(nt)) for nt in batches]
+                for cc in ((0.0, 250.0) if label.startswith("shift") else (0.0,)):
+                    st = StateManager(n_dim=1)
+                    for t in range(T):
+                        st.update_current({"logl": lb[t] + cc, "beta": bs[t], "logz": lzs[t] + bs[t] * cc})
+                        st.commit_current_to_history()
+                    logw, logz = st.compute_logw_and_logz(bfv, normalize=False)
+                    ref = []
+                    for b in lb:
+                        for l in b:
+                            # log-domain reference (no overflow): log sum_t n_t/N exp(beta_t l - logz_t)
+                            terms = [math.log(nt / N) + bt * (l + cc) - (lz + bt * cc) for nt, bt, lz in zip(batches, bs, lzs)]
+                            mx = max(terms)
+                            ref.append(bfv * (l + cc) - (mx + math.log(sum(math.exp(x - mx) for x in terms))))
+                    ref = np.array(ref)
+                    mxw = ref.max()
+                    refz = mxw + math.log(np.exp(ref - mxw).sum()) - math.log(N)
+                    err = max(float(np.max(np.abs(np.asarray(logw, dtype=float) - ref))), abs(float(logz) - refz))
+                    if len(logw) != N:
+                        err = float("inf")
+                    if worst is None or err > worst[0]:
+                        worst = (err, bs, scale, cc, np.asarray(logw, dtype=float).tolist(), ref.tolist())
+        err, bs, scale, cc, got, ref = worst
+        bad = err > 1e-7 * max(1.0, scale)
+        return {"reproduced": bool(bad), "signature": f"compute_logw_and_logz:real-temperatures:{label.split('[')[0]}",
+                "payload": {"betas": bs, "logl_scale": scale, "shift": cc, "got": got, "formula": ref, "abs_err": err},
+                "what": f"compute_logw_and_logz(beta_final={bfv}) with temperatures {bs}, log-likelihoods of size ~{scale} "
+                        f"(shift {cc}): log-weights differ from the mixture formula by {err:.3g} ({label})"}
+
+    return Obligation(f"realbeta-n{'x'.join(map(str, batches))}{'-shift' if shift else ''}{'-bf' if free_final else ''}", harness, replay=replay,
+                      encodes=[StateManager.compute_logw_and_logz, StateManager.get_history],
+                      bounds=f"T={T} batches of sizes {batches}; temperatures arbitrary reals, nondecreasing in [0,1]"
+                             f"{' (first 0)' if T > 1 else ''}; beta_final {'arbitrary in [0,1]' if free_final else '1'}; "
+                             "arbitrary log-likelihoods and positive evidences",
+                      stubs=["exp(beta*ell) -> uninterpreted positive function of (sample, beta), Ackermann congruence instances; "
+                             "np.log/np.logaddexp -> exact log-domain algebra on top of these atoms"], theory="QF_NRA")
+
+
 H = Fraction(1, 2)
 Q = Fraction(1, 4)
 
@@ -432,9 +634,14 @@ def obligations(tier):
         obs.append(make_relational(batches, tuple(Fraction(b) for b in betas), Fraction(bf), D, "permute"))
         obs.append(make_relational(batches, tuple(Fraction(b) for b in betas), Fraction(bf), D, "shift"))
     obs.append(make_replaced_history((2, 1), (Fraction(0), H), Fraction(1), 2))
+    obs.append(make_symbolic_beta((2, 1, 1)))
+    obs.append(make_symbolic_beta((1, 1), free_final=True))
     obs.append(make_finite((2, 1), (Fraction(0), H), Fraction(1)))
     obs.append(make_finite((1, 1), (H, Fraction(1)), Fraction(1)))
     if tier == "thorough":
+        obs.append(make_symbolic_beta((1, 2, 1, 1)))
+        obs.append(make_symbolic_beta((2, 2, 1), free_final=True))
+        obs.append(make_symbolic_beta((2,), free_final=True))
         obs.append(make_finite((2, 2, 1), (Fraction(0), H, Fraction(1)), Fraction(1)))
         obs.append(make_finite((1, 2), (Fraction(0), Fraction(1)), H))
     return obs
